@@ -281,7 +281,7 @@ func main() {
 	deadlineMs := flag.Int64("deadline", 0, "internal: wall-clock deadline (unix ms)")
 	procs := flag.Int("procs", 0, "adapter-level worker processes (default min(8, cores))")
 	replay := flag.String("replay", "", "replay file")
-	only := flag.String("only", "", "run only the parts whose name contains this (adapter, server, client)")
+	only := flag.String("only", "", "run only the parts whose name contains this (adapter, server, client, race)")
 	flag.Parse()
 
 	if *replay != "" {
@@ -314,6 +314,7 @@ func main() {
 	r.Rule = "adapter level: every history of <= 3 (quick) / <= 4 plus text-only 5 (thorough) packets over 10 emit kinds {all, r1, r2, r1 except r2, all except S, direct to S, direct to T, direct to S with ack id, r1 except S (S's own To(r1)), r1+r2 except T} x both orders of the persisted session's room list x {text, binary}, x every disconnect point k in 0..len, x reconnection 1/59/61/119/121/181 s after the disconnect (window 120 s, production cleaner every 60 s), x packets 10 s or 35 s apart before the disconnect (the slow profile puts clean-up passes inside the live phase and makes offsets much older than the disconnect); each (history, k, delta, spacing) is executed once on the real session-aware adapter in virtual time; two sessions (S in {S,r1}, T in {T,r2}) recover from the same log; judged against a reference model with a three-valued expectation (must / may / must-not recover). " +
 		"server level: the same model through a recovery-enabled sio.Server and a protocol-level client that decodes the frames itself (rig R1): histories of <= 2 (quick; deltas 1/61/121 s) / <= 3 (thorough; all deltas, both spacings), plus scripted scenarios (10-packet mixed history, unknown pid, never-logged offset, DISCONNECT instead of a cut, recovery twice in a row, two sessions recovering the same binary packets, live events after every reconnection). " +
 		"Go client: sio.Manager over the in-process polling link (rig R3), one scenario per handler signature (2 live events, link down until both sides noticed, 2 events while away, link up, 1 more event). " +
+		"cleaner race: at the instant of a clean-up pass that trims the log another goroutine broadcasts / restores a session; all interleavings to the deviation bound; the session recovers exactly the packets after its offset. " +
 		"distinct_nontrivial = cases in which session S has an offset and the model replays at least one packet (adapter + server level) + client scenarios"
 	r.Assumptions = []string{
 		"vsched semantics and virtual time: time.Now/Sleep inside the repository are the scheduler's clock, so the 60 s cleaner and the 120 s window run for real; every case runs at the default schedule (the adapter calls of one case are sequential)",
@@ -376,6 +377,9 @@ func main() {
 		}()
 	}
 	wg.Wait()
+	if want("race") {
+		runRaces(*tier, deadline.Add(time.Minute), r)
+	}
 	var names []string
 	for p := range parts {
 		names = append(names, p)
@@ -451,6 +455,7 @@ func doReplay(path string) {
 			SpaceMs  int64  `json:"spacing_ms"`
 			Rev      bool   `json:"rev"`
 			Scenario string `json:"scenario"`
+			Tier     string `json:"tier"`
 		} `json:"replay"`
 	}
 	if err := json.Unmarshal(b, &f); err != nil {
@@ -483,6 +488,9 @@ func doReplay(path string) {
 	case "client":
 		fmt.Println("replaying client scenario:", f.Replay.Scenario)
 		fs, herr = runClientScenario(f.Replay.Scenario)
+	case "race":
+		fmt.Println("re-exploring the cleaner race:", f.Replay.Scenario)
+		fs, herr = replayRace(f.Replay.Scenario, f.Replay.Tier)
 	default:
 		fmt.Fprintln(os.Stderr, "unknown part", f.Replay.Part)
 		os.Exit(2)
